@@ -256,4 +256,113 @@ theorem asControl_of (c : Control) : asControl (ofControl c) = c := by
     simp [ofControl, canon, isZero, asControl, getVarint, getBytes, fCtrlAdd, fCtrlCopy, fCtrlSeek,
       fCtrlEof, h1, h2, h3]
 
+/-! ### typed views are insensitive to dropping zero-valued fields (`canon`) -/
+
+def vstep (f : Nat) : Int → Nat × WVal → Int :=
+  fun acc (f', v) => if f' = f then (match v with | .varint x => x | .bytes _ => acc) else acc
+def bstep (f : Nat) : List Byte → Nat × WVal → List Byte :=
+  fun acc (f', v) => if f' = f then (match v with | .bytes b => b | .varint _ => acc) else acc
+
+theorem getVarint_eq_foldl (m : WMsg) (f : Nat) : getVarint m f = m.foldl (vstep f) 0 := rfl
+theorem getBytes_eq_foldl (m : WMsg) (f : Nat) : getBytes m f = m.foldl (bstep f) [] := rfl
+
+theorem foldl_vstep_absent (f : Nat) (m : WMsg) (acc : Int) (h : f ∉ m.map Prod.fst) :
+    m.foldl (vstep f) acc = acc := by
+  induction m generalizing acc with
+  | nil => rfl
+  | cons p m ih =>
+    obtain ⟨g, v⟩ := p
+    simp only [List.map_cons, List.mem_cons, not_or] at h
+    have hg : ¬ g = f := fun e => h.1 e.symm
+    rw [List.foldl_cons, ih _ h.2]
+    simp [vstep, hg]
+
+theorem foldl_bstep_absent (f : Nat) (m : WMsg) (acc : List Byte) (h : f ∉ m.map Prod.fst) :
+    m.foldl (bstep f) acc = acc := by
+  induction m generalizing acc with
+  | nil => rfl
+  | cons p m ih =>
+    obtain ⟨g, v⟩ := p
+    simp only [List.map_cons, List.mem_cons, not_or] at h
+    have hg : ¬ g = f := fun e => h.1 e.symm
+    rw [List.foldl_cons, ih _ h.2]
+    simp [bstep, hg]
+
+theorem absent_canon (f : Nat) (m : WMsg) (h : f ∉ m.map Prod.fst) : f ∉ (canon m).map Prod.fst := by
+  intro hc
+  obtain ⟨p, hp, rfl⟩ := List.mem_map.mp hc
+  exact h (List.mem_map.mpr ⟨p, (List.mem_filter.mp hp).1, rfl⟩)
+
+theorem canon_cons (p : Nat × WVal) (m : WMsg) :
+    canon (p :: m) = if isZero p.2 then canon m else p :: canon m := by
+  unfold canon
+  rw [List.filter_cons]
+  cases isZero p.2 <;> simp
+
+theorem getVarint_canon (m : WMsg) (hnd : (m.map Prod.fst).Nodup) (f : Nat) :
+    getVarint (canon m) f = getVarint m f := by
+  rw [getVarint_eq_foldl, getVarint_eq_foldl]
+  induction m with
+  | nil => rfl
+  | cons p m ih =>
+    obtain ⟨g, v⟩ := p
+    rw [List.map_cons, List.nodup_cons] at hnd
+    have ih' := ih hnd.2
+    rw [canon_cons, List.foldl_cons]
+    by_cases hg : g = f
+    · subst hg
+      have ha := hnd.1
+      have hc := absent_canon g m ha
+      rw [foldl_vstep_absent g m _ ha]
+      cases hz : isZero v
+      · simp only [Bool.false_eq_true, if_false, List.foldl_cons]
+        rw [foldl_vstep_absent g _ _ hc]
+      · simp only [if_true]
+        rw [foldl_vstep_absent g _ _ hc]
+        cases v with
+        | varint x =>
+          have : x = 0 := by simpa [isZero] using hz
+          subst this
+          simp [vstep]
+        | bytes b => simp [vstep]
+    · have h0 : vstep f 0 (g, v) = 0 := by simp [vstep, hg]
+      rw [h0]
+      cases hz : isZero v
+      · simp only [Bool.false_eq_true, if_false, List.foldl_cons]
+        rw [h0]; exact ih'
+      · simp only [if_true]; exact ih'
+
+theorem getBytes_canon (m : WMsg) (hnd : (m.map Prod.fst).Nodup) (f : Nat) :
+    getBytes (canon m) f = getBytes m f := by
+  rw [getBytes_eq_foldl, getBytes_eq_foldl]
+  induction m with
+  | nil => rfl
+  | cons p m ih =>
+    obtain ⟨g, v⟩ := p
+    rw [List.map_cons, List.nodup_cons] at hnd
+    have ih' := ih hnd.2
+    rw [canon_cons, List.foldl_cons]
+    by_cases hg : g = f
+    · subst hg
+      have ha := hnd.1
+      have hc := absent_canon g m ha
+      rw [foldl_bstep_absent g m _ ha]
+      cases hz : isZero v
+      · simp only [Bool.false_eq_true, if_false, List.foldl_cons]
+        rw [foldl_bstep_absent g _ _ hc]
+      · simp only [if_true]
+        rw [foldl_bstep_absent g _ _ hc]
+        cases v with
+        | varint x => simp [bstep]
+        | bytes b =>
+          have : b = [] := by simpa [isZero] using hz
+          subst this
+          simp [bstep]
+    · have h0 : bstep f [] (g, v) = [] := by simp [bstep, hg]
+      rw [h0]
+      cases hz : isZero v
+      · simp only [Bool.false_eq_true, if_false, List.foldl_cons]
+        rw [h0]; exact ih'
+      · simp only [if_true]; exact ih'
+
 end Wharf.Proto
